@@ -304,22 +304,40 @@ func c17AliasUnique(c *Ctx) {
 					continue
 				}
 				n++
-				ok = false
-				for _, f := range an.Facts(st) {
-					empty, k := an.EmptinessFact(f, func(x ssa.Value) bool {
-						call, isC := an.Strip(x).(*ssa.Call)
-						if !isC || !isFinder(call.Call.StaticCallee()) {
+				freeAt := func(at ssa.Instruction, val ssa.Value) bool {
+					for _, f := range an.Facts(at) {
+						empty, k := an.EmptinessFact(f, func(x ssa.Value) bool {
+							call, isC := an.Strip(x).(*ssa.Call)
+							if !isC || !isFinder(call.Call.StaticCallee()) {
+								return false
+							}
+							for _, a := range call.Call.Args {
+								if a == val || an.SameVar(a, val) {
+									return true
+								}
+							}
 							return false
+						})
+						if k && empty {
+							return true
 						}
-						for _, a := range call.Call.Args {
-							if a == st.Val || an.SameVar(a, st.Val) {
-								return true
+					}
+					return false
+				}
+				ok = freeAt(st, st.Val)
+				if !ok {
+					// `imp.Alias = s.freeAlias(base)`: a helper of the package every return of which hands back a value it has
+					// just looked up and found free
+					if hc, isCall := an.Strip(st.Val).(*ssa.Call); isCall {
+						if h := hc.Call.StaticCallee(); h != nil && h.Pkg != nil && h.Pkg.Pkg.Path() == pkg && len(h.Blocks) > 0 {
+							rets := an.Returns(h)
+							ok = len(rets) > 0
+							for _, r := range rets {
+								if len(r.Results) != 1 || !freeAt(r, an.ReturnedValue(r, 0)) {
+									ok = false
+								}
 							}
 						}
-						return false
-					})
-					if k && empty {
-						ok = true
 					}
 				}
 				c.R.Check(ok, shortFn(topFn(fn))+"/store:Import.Alias", c.ipos(st), "alias looked up and found free", "an import alias is assigned without having been looked up among the aliases already in use: it can coincide with another import's name or reserved alias, and the generated file declares the same import name twice (does not compile)")
